@@ -266,6 +266,14 @@ PROPS.update({
         "level": "fault_enumeration",
         "package": "vx-io",
         "profiles": ["rel", "chk"],
+        # a crash of the process (stack exhaustion on a long run of lines cannot be caught as a panic) kills the shard:
+        # the monitored driver attributes it to the breadcrumb case, confirms it by replaying it alone twice and resumes
+        "monitors": {
+            "quick": [{"name": "rel", "variant": "rel"}, {"name": "chk", "variant": "chk"},
+                      {"name": "dbg", "variant": "dbg", "only": "long_runs,short_lines"}],
+            "thorough": [{"name": "rel", "variant": "rel"}, {"name": "chk", "variant": "chk"},
+                         {"name": "dbg", "variant": "dbg", "only": "long_runs,short_lines,structural"}],
+        },
         "wall": {"quick": 150, "thorough": 3000},
         "rule": "All strings <= 4 (6) bytes over 12 symbols, all <= 5 (6)-line sequences over per-format menus, every prefix/deletion/substitution/insertion and structural fault of small valid files, times three chunkings; non-trivial = input differs from a valid file.",
         "assumptions": COMMON_ASSUMPTIONS + [
